@@ -227,6 +227,9 @@ def run_case(case: dict) -> Outcome:
         if code != 0:
             raise RuntimeError(f"dry run of save failed in the child (exit {code})")
         info["ops"] = len(ops)
+        if not any(op["kind"] in ("open", "write") for op in ops):
+            # the save went through an interface this harness does not intercept: say so instead of passing vacuously
+            raise RuntimeError(f"save performed no intercepted file operation (ops: {ops!r}); C15's crash model needs extending")
         status, loaded = env.run(c13._load(path))
         if status != "ok" or loaded != new_snap:
             return fail("completed-save-does-not-load-as-new", f"after a complete save the file loads as {status} {loaded!r}", nontrivial=True)
